@@ -76,7 +76,7 @@ def closure_diff():
     def lists(path, prefix):
         txt = open(path).read()
         out = {}
-        for name in ("sites", "delete_calls", "writer_args"):
+        for name in ("steps", "global", "delete_origin"):
             m = re.search(r"Definition %s_%s\b.*?:= \[(.*?)\n\]\." % (prefix, name), txt, re.S)
             out[name] = set(l.strip().rstrip(";") for l in m.group(1).splitlines() if l.strip()) if m else set()
         return out
@@ -85,10 +85,9 @@ def closure_diff():
     msgs = []
     for name in found:
         for l in sorted(found[name] - exp[name]):
-            direct = name == "writer_args" and re.search(r'database"\)$', l)
-            msgs.append("%s %s: %s" % ("DIRECT DATABASE WRITE through a writer parameter," if direct else "new", name, l))
+            msgs.append("now %s: %s" % (name, l))
         for l in sorted(exp[name] - found[name]):
-            msgs.append("missing %s: %s" % (name, l))
+            msgs.append("expected %s: %s" % (name, l))
     return msgs
 
 
